@@ -149,6 +149,7 @@ let () =
           if check_gi then incr gisteps;
           if check_gi && not (c_gi_full_b c.order st') then incr gibad;
           if check_gi && not (c_occ_ok_b c.order st') then (incr pcbad; if !pcbad <= 3 then Printf.printf "PCBAD(occ) case %s after step of %d: %s\n" c.id w (state st' (tids c)));
+          if check_gi && not (c_all_pc_ok2_b st') then (incr pcbad; if !pcbad <= 3 then Printf.printf "PCBAD(adj) case %s after step of %d: %s\n" c.id w (state st' (tids c)));
           if check_gi && not (c_all_pc_ok_b c.order st') then (incr pcbad; if !pcbad <= 3 then Printf.printf "PCBAD case %s after step of %d: %s\n" c.id w (state st' (tids c)));
           if c.dumpsteps then Printf.fprintf oc "STEP %d acq=%s ev=%s en=%s | %s\n" w a ev en (state st' (tids c))
           else Printf.fprintf oc "STEP %d acq=%s ev=%s en=%s\n" w a ev en
